@@ -294,6 +294,10 @@ func Random(r *rand.Rand) *File {
 	if f.Class64 && r.Intn(6) == 0 {
 		base = 1<<40 + uint64(r.Intn(1<<16))
 	}
+	if f.Class64 && r.Intn(8) == 0 {
+		// around 2^63 (segments and sections on both sides of it) and in the upper half
+		base = []uint64{1<<63 - 40, 1<<63 - 4, 1 << 63, 0xffffffff80000000, 1<<64 - 0x10000}[r.Intn(5)]
+	}
 	cur := base
 	nseg := r.Intn(5)
 	for i := 0; i < nseg; i++ {
